@@ -714,6 +714,14 @@ func (s *c17MgrSM) peerBlocked(rt *rapid.T, h int, unreach map[peer.ID]bool) {
 			}
 		}
 	}
+	// The requests run in goroutines of their own. Their first effect (confirming the hash, which
+	// the model has already applied above) must not race with the next generated event - a GC tick
+	// that sees the pool still unconfirmed would blacklist the hash, a legitimate outcome the
+	// sequential model does not follow. The confirmation is therefore done synchronously first;
+	// racing first confirmations belong to the concurrent tier (confirmation-race run).
+	for _, hh := range hs {
+		s.env.mgr.validatedPool(s.hashes[hh].String(), s.heights[hh])
+	}
 	for _, hh := range hs {
 		calls = append(calls, s.startPeer(hh))
 	}
